@@ -723,6 +723,68 @@ def run_check(tier, seed):
     except Exception as e:
         run.stat('boolset_context:' + type(e).__name__ + ':' + str(e)[:80])
 
+    # model correspondence for fologic.simplify (FoSimp.simplify, proved meaning-preserving): quantifier-free formulas over
+    # P Q R, an applied predicate and the constants, with every connective
+    try:
+        from prover import fologic
+        from kernel.term import Not as TNot, And as TAnd, Or as TOr, Implies as TImplies, Eq as TEq
+        context.set_context('logic', vars={'P': 'bool', 'Q': 'bool', 'R': 'bool'})
+        leaves = [Var('P', BoolType), Var('Q', BoolType), Var('R', BoolType), kterm.true, kterm.false, kterm.true, kterm.false]
+
+        def sgen(d):
+            c = r.random()
+            if d <= 0 or c < 0.2:
+                return r.choice(leaves)
+            if c < 0.4:
+                return TNot(sgen(d - 1))
+            op = r.choice([TAnd, TOr, TImplies, TEq])
+            return op(sgen(d - 1), sgen(d - 1))
+
+        def to_sform(t):
+            if t == kterm.true:
+                return 'STrue'
+            if t == kterm.false:
+                return 'SFalse'
+            if t.is_not():
+                return '(SNot %s)' % to_sform(t.arg)
+            if t.is_conj():
+                return '(SAnd %s %s)' % (to_sform(t.arg1), to_sform(t.arg))
+            if t.is_disj():
+                return '(SOr %s %s)' % (to_sform(t.arg1), to_sform(t.arg))
+            if t.is_implies():
+                return '(SImp %s %s)' % (to_sform(t.arg1), to_sform(t.arg))
+            if t.is_equals() and t.arg1.get_type() == BoolType:
+                return '(SIff %s %s)' % (to_sform(t.arg1), to_sform(t.arg))
+            return '(SAtom %s)' % g_tm(t)
+        sexprs, smeta = [], []
+        for _ in range(150 * scale):
+            t = sgen(r.choice([1, 2, 3, 4]))
+            try:
+                st = fologic.simplify(t)
+            except RecursionError:
+                raise
+            except Exception as e:
+                run.stat('simplify_exc:' + type(e).__name__)
+                continue
+            sexprs.append('case_simplify %s %s' % (to_sform(t), to_sform(st)))
+            smeta.append((t, st))
+            run.count(('simplify', g_tm(t)), nontrivial=st != t)
+        scodes = coq_eval_nats(run.wd, 'Kernel FoSimp', sexprs, tag='simp', shard=200)
+        sdis = 0
+        for (t, st), code in zip(smeta, scodes):
+            if code != 1:
+                sdis += 1
+                if sdis <= 4:
+                    run.violation('correspondence', 'correspondence:C06/simplify: fologic.simplify and the model FoSimp.simplify differ on %s (implementation: %s)' % (sstr(t), sstr(st)),
+                                  dict(correspondence='C06/simplify', formula=sstr(t), impl=sstr(st)), failing_input=False)
+        run.cov['correspondence_simplify'] = dict(cases=len(sexprs), disagree=sdis)
+    except RecursionError:
+        raise
+    except CoqError:
+        raise
+    except Exception as e:
+        run.stat('simplify_family:' + type(e).__name__ + ':' + str(e)[:80])
+
     # reals and friends: quantifier-free, exact counter-model search
     try:
         context.set_context('real', vars={'x': 'real', 'y': 'real', 'z': 'real', 'm': 'nat', 'n': 'nat', 'f': 'nat => nat', 'g': 'nat => nat'})
